@@ -225,7 +225,7 @@ class PG:
 
 def gen_program(rng):
     pg = PG(rng, CFG_NAMES, SYM_NAMES)
-    kind = rng.choice(['expr', 'expr', 'multi', 'multi', 'multi', 'long', 'raises', 'global'])
+    kind = rng.choice(['expr', 'expr', 'multi', 'multi', 'multi', 'long', 'raises', 'global', 'callable'])
     lines = []
     if kind == 'expr':
         lines = [pg.expr(rng.choice([1, 2, 3]))]
@@ -241,6 +241,19 @@ def gen_program(rng):
     elif kind == 'raises':
         lines += pg.stmt(1)
         lines.append(rng.choice(['undefined_name + 1', '1 // 0', 'data["nope"]', 'elems[99]', 'int("x")', 'helper()', f'{pg.int_name()} + "str"']))
+    elif kind == 'callable':
+        # the value is a function / lambda / closure whose body reads config names and symbols: it is called after the build (and after
+        # the later builds of the history) and must still compute what the same Python function computes over the values of *its* build
+        form = rng.choice(['def', 'lambda', 'closure', 'method'])
+        a, b = pg.int_name(), pg.int_name()
+        if form == 'def':
+            lines += [f'k = {pg.expr(1)}', 'def f(q, r=2):', f'    t = q * {a} + r', f'    return t + k + {b} + len(elems) + data["a"]', 'f']
+        elif form == 'lambda':
+            lines += [f'lambda q: q + {a} * 2 + {b} + sum(elems)']
+        elif form == 'closure':
+            lines += ['def mk(w):', f'    return lambda q: [q + w + {a} for _ in range(2)] + [{b}]', f'mk({pg.expr(1)})']
+        else:
+            lines += ['class K:', '    def m(self, q):', f'        return (q, {a}, data["b"], {b})', 'K().m']
     else:
         lines.append('counter = 0')
         lines.append('def bump(k):')
@@ -343,6 +356,7 @@ def run(case):
     from awesomeyaml.eval_context import EvalContext
     vio = []
     feats = ['kind_' + case['kind'], 'builds=%d' % len(case['builds'])]
+    deferred = []
     for bi, b in enumerate(case['builds']):
         exp = native(case['code'], case['kind'], case['spelling'], b['cfg'], b['sym'])
         text = build_text(case, b)
@@ -359,7 +373,18 @@ def run(case):
                 vio.append({'mech': 'valid-program-fails', 'what': f'native value {exp[1]!r} but the node {lib.describe(got)}; {where}'})
                 break
             v = got[1]['result'] if case['key'] == 'result' else got[1]['deep']['er'][1]
-            if util.typed(v) != util.typed(exp[1]):
+            if callable(exp[1]):
+                if not callable(v):
+                    vio.append({'mech': 'value-differs', 'what': f'native value is a callable but the node evaluated to {v!r}; {where}'})
+                    break
+                deferred.append((exp[1], v, where))
+                for when in ('right_after_its_build',):
+                    m = _call_both(exp[1], v, where, when)
+                    if m:
+                        vio.append(m)
+                if vio:
+                    break
+            elif util.typed(v) != util.typed(exp[1]):
                 mech = 'value-differs' if bi == 0 else 'value-differs-in-later-build'
                 vio.append({'mech': mech, 'what': f'native value {exp[1]!r} but the node evaluated to {v!r}; {where}'})
                 break
@@ -376,11 +401,31 @@ def run(case):
             lib.outcome(lambda: Config.build(build_text({'code': case['other'], 'kind': 'multi', 'spelling': 'eval', 'key': case['key']}, b), raw_yaml=True,
                                              eval_ctx=EvalContext(eval_symbols=symbols(b['sym']))))
             feats.append('interleaved_build')
+    if not vio:
+        for ef, gf, where in deferred:
+            m = _call_both(ef, gf, where, 'after_the_whole_history')
+            feats.append('callable_value_called_after_history')
+            if m:
+                vio.append(m)
+                break
     res = {'status': 'violation' if vio else 'ok', 'nontrivial': bool(case['used']), 'feats': sorted(set(feats)), 'sig': util.sig([case['code'], case['builds']]),
            'evals': len(case['builds'])}
     if vio:
         res['violations'] = vio
     return res
+
+
+def _call_both(ef, gf, where, when):
+    """call the native callable and the one the node evaluated to with the same argument; both must agree (value or exception class)"""
+    def call(f):
+        try:
+            return ('ok', f(3))
+        except Exception as e:
+            return ('err', type(e).__name__)
+    e, g = call(ef), call(gf)
+    if e[0] != g[0] or (util.typed(e[1]) != util.typed(g[1]) if e[0] == 'ok' else e[1] != g[1]):
+        return {'mech': 'returned-callable-differs', 'what': f'the callable the node evaluated to, called {when} with 3, gives {g!r}; the same Python function over the values of its build gives {e!r}; {where}'}
+    return None
 
 
 def coverage_extra(merged, vios):
